@@ -1,9 +1,43 @@
-"""C04 - see spec/QAlg.tla (properties C04_*) and harness/qalg.py."""
-from . import qalg
+"""C04 - products, quotients and powers: exponents add, base magnitudes multiply.
+
+Model side: spec/QAlg.tla (properties C04_*) with every generated product / quotient / power replayed (harness/qalg.py; exponents are
+bounded by 4 there).  Real-code side (direction B): a ** n for n = 1..9 is the n-fold product - the products are what the model
+validates - over simple, derived and two-unit operands, recorded and validated by TLC (MC_Judge.tla: Agrees).
+"""
+import collections
+import json
+
+from . import common, project as P, qalg, qtab
+
+
+def power_events(env):
+    from barril.units import Quantity, Scalar
+
+    ev = []
+    operands = [Scalar(2.0, u, c) for c, u in qtab.ATOMS]
+    operands += [Scalar(2.0, "m") * Scalar(3.0, "s"), Scalar(3.0, "km", "depth") / Scalar(2.0, "min"), 1.0 / Scalar(4.0, "cm"),
+                 Scalar(Quantity.CreateDerived(collections.OrderedDict([("length", ["m", 1]), ("depth", ["cm", 1])])), 3.0),
+                 Scalar(Quantity.CreateDerived(collections.OrderedDict([("depth", ["km", 2]), ("length", ["m", -1])])), 0.5)]
+    for a in operands:
+        prod = None
+        for n in range(1, 10):
+            prod = a if prod is None else prod * a
+            o = P.outcome(lambda: a ** n)
+            e = {"op": "Agrees", "call": "(%r) ** %d against the %d-fold product" % (a, n, n), "ok": o[0] == "ok", "same_quantity": False, "ppt": 2 ** 31 - 1,
+                 "want": repr(prod)}
+            if o[0] == "ok":
+                e["got"] = repr(o[1])
+                e["same_quantity"] = bool(o[1].GetQuantity() == prod.GetQuantity()) and json.dumps(P.quantity(o[1].GetQuantity()), sort_keys=True) == json.dumps(P.quantity(prod.GetQuantity()), sort_keys=True)
+                e["ppt"] = min(2 ** 31 - 1, int(abs(o[1].GetValue() - prod.GetValue()) / max(abs(prod.GetValue()), 1e-300) * 1e12))
+            ev.append(e)
+    return ev
 
 
 def main(tier):
     rep, bd, env, stats = qalg.run("C04", tier, "prod", "")
-    return qalg.finish(rep, env, rule="every transition TLC generates for the bounded quantity-algebra machine whose last step is "
+    common.judge_trace(rep, bd, power_events(env), "powers 1..9 of simple, derived and two-unit operands against the n-fold product", tag="powers",
+                       key_of=lambda ev: {"check": "power vs product", "call": ev["call"]})
+    return qalg.finish(rep, env, rule="(a) every transition TLC generates for the bounded quantity-algebra machine whose last step is "
                        "a multiplication, division, floor division or power (operands built by up to two products/quotients/powers of "
-                       "table units) is executed on real Scalars and compared with the prediction; distinct = distinct (pool, call) pairs")
+                       "table units) is executed on real Scalars and compared with the prediction; distinct = distinct (pool, call) pairs; "
+                       "(b) a ** n for n = 1..9 against the n-fold product, validated by TLC")
